@@ -141,8 +141,8 @@ func C05(r *Run) *core.Report {
 	// lock is lost and a second caller creates the value again
 	// ... and every write of a slot is made under that lock (P5): a lock-free overwrite is not ordered with a running
 	// read-modify-write, whose result then replaces it (a lost update)
-	n7 := borrow(rep, mapProtocol(r, "C03", 0), "C05.F7", "C03.P3", "C03.P5", "C03.P6")
-	n7 += borrow(rep, mapProtocol(r, "C04", 1), "C05.F7", "C04.P3", "C04.P5", "C04.P6")
+	n7 := borrow(rep, mapProtocol(r, "C03", 0), "C05.F7", "C03.P3", "C03.P5", "C03.P6", "C03.P10", "C03.P12")
+	n7 += borrow(rep, mapProtocol(r, "C04", 1), "C05.F7", "C04.P3", "C04.P5", "C04.P6", "C04.P10", "C04.P12")
 	rep.MinCount("C05.F7", "premise obligations (validation and copy respect the lock)", n7, 8)
 	// F8: 'nobody else writes that key' includes the cache's own lazy deletion and sweeps: they remove only an entry
 	// they judged expired under the key's lock, or the value the one creator stored is dropped by a concurrent reader
